@@ -93,7 +93,7 @@ class Check(PropertyCheck):
             "schedule makespan, status optimal => equals the brute-force optimum (exhaustive semi-active search in plain "
             "Python), <= every dispatching rule's makespan, >= job-length and machine-load bounds, no NoSolutionFoundError "
             "without a time limit; a benchmark instance solved under a sub-second time limit (status feasible): reported = actual "
-            "makespan, feasible, complete; build/solve/drop loops of same-shape same-total instances (each answer is about the instance passed); thorough tier: benchmark instances with recorded optima/bounds; non-trivial = >=2 jobs "
+            "makespan, feasible, complete; near-identical jobs with durations 2**24..2**40 (exact optimum); build/solve/drop loops of same-shape same-total instances (each answer is about the instance passed); thorough tier: benchmark instances with recorded optima/bounds; non-trivial = >=2 jobs "
             "sharing a machine")
     ASSUMPTIONS = ["CP-SAT is sound and complete for the model it is given (solution satisfies every constraint; "
                    "OPTIMAL = no better solution; INFEASIBLE only without solutions)",
@@ -146,6 +146,9 @@ class Check(PropertyCheck):
             yield Scenario(["new", "cpnew", f"mark stalemeta {rng.randint(0, 10**6)}"], {"families": "stalemeta", "solves": 1})
         for k in range(3 if tier == "quick" else 20):
             yield Scenario(["new", "cpnew", f"mark hugedur {rng.randint(0, 10**6)}"], {"families": "hugedur", "solves": 1})
+        # durations between 2**24 and 2**40 (exact for CP-SAT, not for float32), jobs that are identical or differ by one unit
+        for k in range(4 if tier == "quick" else 30):
+            yield Scenario(["new", "cpnew", f"mark middur {rng.randint(0, 10**6)}"], {"families": "middur", "solves": 1})
         # a build / solve / drop loop (the way a benchmark study runs): same shape, same total processing time, every
         # instance garbage before the next one exists - each answer must be about the instance that was passed
         for k in range(3 if tier == "quick" else 25):
@@ -216,6 +219,34 @@ class Check(PropertyCheck):
             res += self.check_schedule(inst, jobs, sched, exact_objective=False)
             if sched.makespan() < opt:
                 res.append(("below-optimum", f"makespan {sched.makespan()} below the exhaustive optimum {opt} (instance {jobs})"))
+        elif line.startswith("mark middur"):
+            from impl_ext import _ORToolsSolver, _NoSolution
+            r = random.Random(int(line.split()[2]))
+            B = 2 ** r.choice([24, 24, 25, 31, 40])
+            M = r.randint(2, 3)
+            route = [r.randrange(M) for _ in range(r.randint(2, 3))]
+            base = [B * r.randint(0, 1) + r.randint(0, 3) for _ in route]
+            if not any(d >= B for d in base):
+                base[0] += B
+            jobs = []
+            for _j in range(r.randint(2, 3)):
+                # the same route with durations equal or one unit apart; sometimes another route
+                rt = route if r.random() < 0.8 else [r.randrange(M) for _ in route]
+                jobs.append([([m], max(0, d + r.choice([0, 0, 1, -1]))) for m, d in zip(rt, base)])
+            opt = brute_force_optimum(jobs)
+            inst = build_instance(jobs)
+            try:
+                sched = _ORToolsSolver().solve(inst)
+            except _NoSolution:
+                res.append(("no-solution", f"NoSolutionFoundError without a time limit (instance {jobs})"))
+                return res
+            except Exception as e:  # pylint: disable=broad-except
+                res.append(("solve-raised", f"solve raised {e!r} (instance {jobs})"))
+                return res
+            res += self.check_schedule(inst, jobs, sched)
+            if sched.metadata.get("status") == "optimal" and sched.makespan() != opt:
+                res.append(("not-optimal", f"status optimal with makespan {sched.makespan()}, exhaustive search finds {opt} "
+                            f"(instance {jobs})"))
         elif line.startswith("mark gcloop"):
             import gc
             from impl_ext import _ORToolsSolver, _NoSolution
